@@ -150,6 +150,9 @@ def runs_for(pid, tier, seed):
             R('12 students x 11 lecturers, two-sided/text', fm.both_twodigit(**dict(ld, CheckText=False)), invariants=['FamilyWellFormed', 'Export'],
               simulate=1500 if q else 15000, depth=90),
             R('large ids/text', fm.shifted(**dict(ld, CheckText=False, Stabs={False})), invariants=['FamilyWellFormed', 'Export'], simulate=240 if q else 3000),
+            R('split ids (students 1 and 257+ on the same lists)/text', fm.shifted(**dict(ld, CheckText=False, Stabs={False}, Shifts=fm.SPLITS, NS=3, NL=1,
+                                                                                     Sided={'two'}, OrderMode='all')),
+              invariants=['FamilyWellFormed', 'Export'], simulate=240 if q else 3000),
             R('12 students, ties everywhere/text', fm.twodigit_students(NS=12, NP=3, MaxLen=3, TieMode='all', OrderMode='asctied', **ld),
               invariants=inv, simulate=500 if q else 5000),
         ]
